@@ -27,7 +27,7 @@ if False:  # pylint: disable=using-constant-test
     import ctypes  # NOQA pylint: disable=unused-import
     from mmap import mmap  # NOQA pylint: disable=unused-import
     import pickle  # NOQA pylint: disable=unused-import
-    from typing import Any, Optional, Union  # NOQA pylint: disable=unused-import
+    from typing import Any, List, Optional, Union  # NOQA pylint: disable=unused-import
 
 
 class PyCdlibIO(io.RawIOBase):
@@ -36,12 +36,16 @@ class PyCdlibIO(io.RawIOBase):
     Since ISOs are generally only readable, this is only a readable context
     manager.
     """
-    __slots__ = ('_ctxt', '_fp', '_length', '_offset', '_open', '_startpos')
+    __slots__ = ('_ctxt', '_fp', '_length', '_offset', '_open', '_startpos',
+                 '_more_ctxts', '_extents')
 
-    def __init__(self, ino, logical_block_size):
-        # type: (inode.Inode, int) -> None
+    def __init__(self, ino, logical_block_size, more_inodes=None):
+        # type: (inode.Inode, int, Optional[List[inode.Inode]]) -> None
         super(PyCdlibIO, self).__init__()  # pylint: disable=super-with-arguments
         self._ctxt = inode.InodeOpenData(ino, logical_block_size)
+        # A file that is larger than one extent can hold is recorded as
+        # several extents, each with an Inode of its own.
+        self._more_ctxts = [inode.InodeOpenData(i, logical_block_size) for i in more_inodes or []]
         self._open = True
 
     def __enter__(self):
@@ -51,8 +55,44 @@ class PyCdlibIO(io.RawIOBase):
         # this file into the backing file.
         (self._fp, self._length) = self._ctxt.__enter__()
         self._startpos = self._fp.tell()
+        # Each extent is (logical offset of its first byte, file object,
+        # position of its first byte in that file object, length).
+        self._extents = [(0, self._fp, self._startpos, self._length)]
+        for ctxt in self._more_ctxts:
+            (fp, length) = ctxt.__enter__()
+            self._extents.append((self._length, fp, fp.tell(), length))
+            self._length += length
         self._offset = 0
         return self
+
+    def _read_at_offset(self, readsize):
+        # type: (int) -> bytes
+        """
+        Read up to readsize bytes at the current offset, going from extent to
+        extent as necessary, and advance the offset.
+        """
+        if len(self._extents) == 1:
+            self._fp.seek(self._startpos + self._offset)
+            data = self._fp.read(readsize)
+            self._offset += len(data)
+            return data
+
+        datalist = []
+        while readsize > 0:
+            for (first, fp, startpos, length) in self._extents:
+                if first <= self._offset < first + length:
+                    break
+            else:
+                break
+            thisread = min(readsize, first + length - self._offset)
+            fp.seek(startpos + self._offset - first)
+            data = fp.read(thisread)
+            datalist.append(data)
+            self._offset += len(data)
+            readsize -= len(data)
+            if len(data) < thisread:
+                break
+        return b''.join(datalist)
 
     def read(self, size=None):
         # type: (Optional[int]) -> bytes
@@ -77,9 +117,7 @@ class PyCdlibIO(io.RawIOBase):
             data = self.readall()
         else:
             readsize = min(self._length - self._offset, size)
-            self._fp.seek(self._startpos + self._offset)
-            data = self._fp.read(readsize)
-            self._offset += readsize
+            data = self._read_at_offset(readsize)
 
         return data
 
@@ -99,9 +137,7 @@ class PyCdlibIO(io.RawIOBase):
 
         readsize = self._length - self._offset
         if readsize > 0:
-            self._fp.seek(self._startpos + self._offset)
-            data = self._fp.read(readsize)
-            self._offset += readsize
+            data = self._read_at_offset(readsize)
         else:
             data = b''
 
@@ -117,11 +153,9 @@ class PyCdlibIO(io.RawIOBase):
             mv = memoryview(b)
             m = mv.cast('B')
             readsize = min(readsize, len(m))
-            self._fp.seek(self._startpos + self._offset)
-            data = self._fp.read(readsize)
+            data = self._read_at_offset(readsize)
             n = len(data)
             m[:n] = data
-            self._offset += n
         else:
             n = 0
 
@@ -251,6 +285,10 @@ class PyCdlibIO(io.RawIOBase):
         """
         self._open = False
         self._ctxt.__exit__()
+        for ctxt in self._more_ctxts:
+            ctxt.__exit__()
 
     def __exit__(self, *args):
         self._ctxt.__exit__()
+        for ctxt in self._more_ctxts:
+            ctxt.__exit__()
